@@ -27,6 +27,10 @@ def run(tier):
     from ..contracts import lossnd as ND
     for rel, q, c, tag in ND.PUBLIC_ITEMS:
         reps.append(deductive.verify_function(rel, q, c, hooks=ND.hooks(ND.SITES_PUBLIC), prefix='%s::%s[n-dimensional, L2]' % (rel, q)))
+    from ..contracts import lossnd as ND1
+    for rel, q, c, tag in ND1.L1_ITEMS:
+        if tag == 'C19':
+            reps.append(deductive.verify_function(rel, q, c, hooks=ND1.hooks(ND1.SITES_L1), prefix='%s::%s[n-dimensional, L1]' % (rel, q)))
     return reps
 
 
